@@ -63,13 +63,20 @@ def battery(seed):
                 go('%s/%s/w%d/plain' % (nm, kind, w), lambda: canon(f(G, 1.0, 1.0, initial_infecteds=list(i0), **kw2)))
                 go('%s/%s/w%d/full' % (nm, kind, w), lambda: full(f(G, 1.0, 1.0, initial_infecteds=list(i0), return_full_data=True, **kw2), G))
             go('%s/%s/rho' % (nm, kind), lambda: canon(f(G, 1.0, 1.0, rho=0.25, **kw)))
+            if nm.endswith('SIR'):
+                # explicit initial sets incl. initially recovered nodes, three infected nodes, tmin != 0
+                i3 = [L[2], L[0], L[6]]; r2 = [L[5], L[9]]
+                go('%s/%s/r0/plain' % (nm, kind), lambda: canon(f(G, 1.0, 1.0, initial_infecteds=list(i3), initial_recovereds=list(r2), tmin=2.5, **kw)))
+                go('%s/%s/r0/full' % (nm, kind), lambda: full(f(G, 1.0, 1.0, initial_infecteds=list(i3), initial_recovereds=list(r2), tmin=2.5, return_full_data=True, **kw), G))
         # non-Markovian simulators with rules that draw from `random`
         tt = lambda u, v: random.expovariate(1.0)
         rt = lambda u: random.expovariate(1.0)
         go('fast_nonMarkov_SIR/%s/plain' % kind, lambda: canon(EoN.fast_nonMarkov_SIR(G, trans_time_fxn=tt, rec_time_fxn=rt, initial_infecteds=list(i0))))
         go('fast_nonMarkov_SIR/%s/full' % kind, lambda: full(EoN.fast_nonMarkov_SIR(G, trans_time_fxn=tt, rec_time_fxn=rt, initial_infecteds=list(i0), return_full_data=True), G))
+        go('fast_nonMarkov_SIR/%s/r0/plain' % kind, lambda: canon(EoN.fast_nonMarkov_SIR(G, trans_time_fxn=tt, rec_time_fxn=rt, initial_infecteds=[L[2], L[0], L[6]], initial_recovereds=[L[5], L[9]], tmin=2.5)))
         tts = lambda u, v, rec_delay: [random.expovariate(1.0)]
         go('fast_nonMarkov_SIS/%s/plain' % kind, lambda: canon(EoN.fast_nonMarkov_SIS(G, trans_time_fxn=tts, rec_time_fxn=rt, initial_infecteds=list(i0), tmax=3)))
+        go('fast_nonMarkov_SIS/%s/three/plain' % kind, lambda: canon(EoN.fast_nonMarkov_SIS(G, trans_time_fxn=tts, rec_time_fxn=rt, initial_infecteds=[L[2], L[0], L[6]], tmin=2.5, tmax=5)))
         go('fast_nonMarkov_SIS/%s/full' % kind, lambda: full(EoN.fast_nonMarkov_SIS(G, trans_time_fxn=tts, rec_time_fxn=rt, initial_infecteds=list(i0), tmax=3, return_full_data=True), G))
         # Gillespie_simple_contagion: SIRS with string statuses, SEIR with tuple statuses
         H = nx.DiGraph(); H.add_edge('Inf', 'Rec', rate=1.0); H.add_edge('Rec', 'Sus', rate=0.5)
@@ -101,6 +108,7 @@ def battery(seed):
         go('complex/%s/plain' % kind, lambda: canon(EoN.Gillespie_complex_contagion(G, rate_function, transition_choice, get_influence_set, dict(ICc), ('S', 'I', 'R'), parameters=(1.0, 1.0))))
         # discrete-time simulators (same process: identical; across hash seeds not required)
         go('discrete_SIR/%s/plain' % kind, lambda: canon(EoN.discrete_SIR(G, args=(0.5,), initial_infecteds=list(i0))))
+        go('discrete_SIR/%s/r0/plain' % kind, lambda: canon(EoN.discrete_SIR(G, args=(0.5,), initial_infecteds=[L[2], L[0], L[6]], initial_recovereds=[L[5], L[9]], tmin=2)))
         go('basic_discrete_SIR/%s/plain' % kind, lambda: canon(EoN.basic_discrete_SIR(G, 0.5, initial_infecteds=list(i0))))
         go('basic_discrete_SIS/%s/plain' % kind, lambda: canon(EoN.basic_discrete_SIS(G, 0.5, initial_infecteds=list(i0), tmax=6)))
         go('percolation_based_discrete_SIR/%s/plain' % kind, lambda: canon(EoN.percolation_based_discrete_SIR(G, 0.5, initial_infecteds=list(i0))))
